@@ -142,6 +142,59 @@ func (c *Ctx) enumArms(pkgs func(string) bool, enum string) []enumArm {
 	return out
 }
 
+// sumArms lists the arms of every type switch over the ir sum type `sum` in the packages
+// (members are the variant type names).
+func (c *Ctx) sumArms(pkgs func(string) bool, sum string) []enumArm {
+	sums := c.sumTypes("ir")
+	st := sums[sum]
+	if st == nil {
+		return nil
+	}
+	var out []enumArm
+	for _, fn := range c.allFuncs() {
+		if !pkgs(fn.Pkg.Rel) {
+			continue
+		}
+		info := fn.Pkg.Info
+		ord := 0
+		ast.Inspect(fn.Decl.Body, func(n ast.Node) bool {
+			ts, ok := n.(*ast.TypeSwitchStmt)
+			if !ok {
+				return true
+			}
+			isSum := false
+			for _, cl := range ts.Body.List {
+				for _, l := range cl.(*ast.CaseClause).List {
+					if tv, ok := info.Types[l]; ok && st.has(irTypeName(tv.Type)) {
+						isSum = true
+					}
+				}
+			}
+			if !isSum {
+				return true
+			}
+			ord++
+			for _, cl := range ts.Body.List {
+				cc := cl.(*ast.CaseClause)
+				var members []string
+				for _, l := range cc.List {
+					if tv, ok := info.Types[l]; ok {
+						if nm := irTypeName(tv.Type); st.has(nm) {
+							members = append(members, nm)
+						}
+					}
+				}
+				if len(members) == 0 {
+					continue
+				}
+				out = append(out, enumArm{Fn: fn, Enum: sum, Members: members, Words: armWords(info, cc.Body, nil), Pos: cc.Pos(), SwOrd: ord})
+			}
+			return true
+		})
+	}
+	return out
+}
+
 type enumRef map[string][]string // member -> allowed words
 
 // constNamesOfType: names of the package-level constants of Go type typeName declared in packages under prefix.
@@ -183,7 +236,11 @@ func (c *Ctx) runEnumMapT(r *Report, t enumTable) {
 		}
 	}
 	n := 0
-	for _, a := range c.enumArms(inPkgs(t.Pkg), t.Enum) {
+	arms := c.enumArms(inPkgs(t.Pkg), t.Enum)
+	if t.Sum {
+		arms = c.sumArms(inPkgs(t.Pkg), t.Enum)
+	}
+	for _, a := range arms {
 		if reason, skip := t.SkipFuncs[a.Fn.id()]; skip {
 			r.exc(t.Rule, a.Fn.id()+"/"+t.Enum+":"+strings.Join(a.Members, ","), c.pos(a.Pos), reason)
 			continue
@@ -228,7 +285,9 @@ func (c *Ctx) runEnumMapT(r *Report, t enumTable) {
 func init() {
 	dumpers["enummap"] = func(c *Ctx, parts []string) {
 		// enummap:<pkgprefix>:<Enum>
-		for _, a := range c.enumArms(inPkgs(parts[1]), parts[2]) {
+		arms := c.enumArms(inPkgs(parts[1]), parts[2])
+		arms = append(arms, c.sumArms(inPkgs(parts[1]), parts[2])...)
+		for _, a := range arms {
 			println(a.Fn.id(), a.SwOrd, strings.Join(a.Members, ","), "=>", strings.Join(a.Words, " "))
 		}
 	}
